@@ -133,8 +133,8 @@ def closures_in_type(prog, ty, root):
     return out
 
 
-def c02b(prog, R):
-    r = R.rule("C02.b", "every scan source is filtered by the snapshot before the merge; MVCC before tombstone filter", "T")
+def c02b(prog, R, rid="C02.b"):
+    r = R.rule(rid, "every scan source is filtered by the snapshot before the merge; MVCC before tombstone filter", "T")
     root = "range::TreeIter::create_range"
     f = prog.need(root)
     fam = prog.family(f)
